@@ -822,4 +822,443 @@ theorem processName_snake_fixed (cfg : Cfg) (n : Name) (hs : cfg.snake = true) (
       · rw [e, snake_append_underscore, snake_idem]
     rw [this]
 
+
+/-! ## Part 6: when do two names get the same Python name? -/
+
+theorem tables_not_fallback_stem : ∀ k ∈ kwlistC ++ reservedC, k ++ ['_'] ≠ fallbackName := by decide +kernel
+
+theorem suspect_fallback_stem (cfg : Cfg) (p : Name) (h : p ++ ['_'] = fallbackName) : suspect cfg p = false := by
+  cases hs : suspect cfg p
+  · rfl
+  · exfalso
+    refine tables_not_fallback_stem p ?_ h
+    rcases (suspect_iff cfg _).mp hs with h | ⟨_, h⟩ <;> simp [h]
+
+theorem suffix_eq_cases (cfg : Cfg) (p q : Name) (h : suffix cfg p = suffix cfg q) :
+    p = q ∨ (suspect cfg q = true ∧ p = q ++ ['_']) ∨ (suspect cfg p = true ∧ q = p ++ ['_']) := by
+  rcases suffix_cases cfg p with ⟨hp, ep⟩ | ⟨hp, ep⟩ <;> rcases suffix_cases cfg q with ⟨hq, eq⟩ | ⟨hq, eq⟩
+  · left; rw [ep, eq] at h; exact h
+  · right; left; rw [ep, eq] at h; exact ⟨hq, h⟩
+  · right; right; rw [ep, eq] at h; exact ⟨hp, h.symm⟩
+  · left; rw [ep, eq] at h; exact List.append_cancel_right h
+
+theorem suffix_of_suspect (cfg : Cfg) {p : Name} (h : suspect cfg p = true) : suffix cfg p = p ++ ['_'] := by
+  rcases suffix_cases cfg p with ⟨hp, _⟩ | ⟨_, e⟩
+  · rw [h] at hp; exact absurd hp (by simp)
+  · exact e
+
+theorem append_eq_snoc_underscore (a b x : Name) (hb : b ≠ []) (e : a ++ b = x ++ ['_']) : ∃ y, b = y ++ ['_'] := by
+  induction a generalizing x with
+  | nil => exact ⟨x, by simpa using e⟩
+  | cons c a ih =>
+    cases x with
+    | nil =>
+      simp only [List.cons_append, List.nil_append, List.cons.injEq] at e
+      have : b = [] := (List.append_eq_nil_iff.mp e.2).2
+      exact absurd this hb
+    | cons c' x' =>
+      simp only [List.cons_append, List.cons.injEq] at e
+      exact ih x' e.2
+
+/-- `"_".join` of canonical words does not end with an underscore -/
+theorem joinU_not_trailing (ws : List Name) (h : ∀ w ∈ ws, CanonWord w) (x : Name) : joinU ws ≠ x ++ ['_'] := by
+  induction ws generalizing x with
+  | nil => simp [joinU]
+  | cons w ws ih =>
+    have hw := h w (by simp)
+    cases ws with
+    | nil =>
+      simp only [joinU]
+      intro e
+      have hm : '_' ∈ w := by rw [e]; simp
+      exact canon_noO hw '_' hm cls_underscore
+    | cons w2 ws' =>
+      simp only [joinU]
+      intro e
+      have h2 := ih (fun y hy => h y (by simp [hy]))
+      -- the last character of the right part is the last character of the whole
+      have hne : joinU (w2 :: ws') ≠ [] := by
+        have h2w := h w2 (by simp)
+        cases w2 with
+        | nil => exact absurd rfl h2w.1
+        | cons c t => obtain ⟨r, hr⟩ := joinU_cons_head c t ws'; rw [hr]; simp
+      have e' : w ++ '_' :: joinU (w2 :: ws') = (w ++ ['_']) ++ joinU (w2 :: ws') := by simp
+      rw [e'] at e
+      obtain ⟨y, hy⟩ := append_eq_snoc_underscore _ _ _ hne e
+      exact h2 y hy
+
+theorem snake_not_trailing (s x : Name) : snake s ≠ x ++ ['_'] :=
+  joinU_not_trailing _ (snakeWords_canon s) x
+
+
+theorem gname_ne_nil {n : Name} (h : GName n) : n ≠ [] := by
+  intro e; subst e; simp [GName] at h
+
+theorem allUnderscore_iff_snake_nil {n : Name} (h : GName n) : allUnderscore n = true ↔ snake n = [] := by
+  constructor
+  · intro hu; exact (snake_eq_nil_iff n).mpr (allUnderscore_alnum hu)
+  · intro hs
+    have ha := (snake_eq_nil_iff n).mp hs
+    apply (allUnderscore_iff n).mpr
+    refine ⟨gname_ne_nil h, ?_⟩
+    intro c hc
+    cases hall : decide (∀ c ∈ n, c = '_')
+    · exact absurd ha (alnum_ne_nil_of_word (gname_word h) (by simpa using hall))
+    · exact (of_decide_eq_true hall) c hc
+
+theorem fallback_ne_suffix_snake (cfg : Cfg) (s : Name) : suffix cfg (snake s) ≠ fallbackName := by
+  intro e
+  rcases suffix_cases cfg (snake s) with ⟨_, e1⟩ | ⟨h1, e1⟩
+  · rw [e1] at e
+    have := snake_idem s
+    rw [e] at this
+    exact fallback_snake_facts.2 this
+  · rw [e1] at e
+    rw [suspect_fallback_stem cfg _ e] at h1; exact absurd h1 (by simp)
+
+/-- snake-casing on: two GraphQL names get the same Python name iff they have the same lower-cased words -/
+theorem collide_snake (cfg : Cfg) (hs : cfg.snake = true) (a b : Name) (ha : GName a) (hb : GName b) :
+    processName cfg a = processName cfg b ↔ snake a = snake b := by
+  cases hua : allUnderscore a <;> cases hub : allUnderscore b
+  · rw [processName_snake cfg a hs hua, processName_snake cfg b hs hub]
+    constructor
+    · intro h
+      rcases suffix_eq_cases cfg _ _ h with e | ⟨_, e⟩ | ⟨_, e⟩
+      · exact e
+      · exact absurd e (snake_not_trailing a _)
+      · exact absurd e (snake_not_trailing b _)
+    · intro h; rw [h]
+  · rw [processName_snake cfg a hs hua, processName_snake_allU cfg b hs hub]
+    have hb0 := (allUnderscore_iff_snake_nil hb).mp hub
+    have ha0 : snake a ≠ [] := fun e => by
+      have := (allUnderscore_iff_snake_nil ha).mpr e; rw [hua] at this; exact absurd this (by simp)
+    constructor
+    · intro h; exact absurd h (fallback_ne_suffix_snake cfg a)
+    · intro h; rw [hb0] at h; exact absurd h ha0
+  · rw [processName_snake_allU cfg a hs hua, processName_snake cfg b hs hub]
+    have ha0 := (allUnderscore_iff_snake_nil ha).mp hua
+    have hb0 : snake b ≠ [] := fun e => by
+      have := (allUnderscore_iff_snake_nil hb).mpr e; rw [hub] at this; exact absurd this (by simp)
+    constructor
+    · intro h; exact absurd h.symm (fallback_ne_suffix_snake cfg b)
+    · intro h; rw [ha0] at h; exact absurd h.symm hb0
+  · rw [processName_snake_allU cfg a hs hua, processName_snake_allU cfg b hs hub,
+      (allUnderscore_iff_snake_nil ha).mp hua, (allUnderscore_iff_snake_nil hb).mp hub]
+    simp
+
+/-- snake-casing off, no trimming: only a keyword/reserved name and its suffixed form meet -/
+theorem collide_plain (cfg : Cfg) (hs : cfg.snake = false) (ht : cfg.trim = false) (a b : Name)
+    (ha : a ≠ []) (hb : b ≠ []) :
+    processName cfg a = processName cfg b ↔
+      (a = b ∨ (suspect cfg b = true ∧ a = b ++ ['_']) ∨ (suspect cfg a = true ∧ b = a ++ ['_'])) := by
+  rw [processName_plain cfg a hs ht ha, processName_plain cfg b hs ht hb]
+  constructor
+  · exact suffix_eq_cases cfg a b
+  · rintro (e | ⟨h, e⟩ | ⟨h, e⟩)
+    · rw [e]
+    · rw [e, suffix_of_suspect cfg h, suffix_of_not_suspect cfg (suspect_append_underscore cfg b h)]
+    · rw [e, suffix_of_suspect cfg h, suffix_of_not_suspect cfg (suspect_append_underscore cfg a h)]
+
+
+/-! ### snake-casing off, trimming on -/
+
+/-- the three kinds of non-empty names under trimming -/
+theorem kind_cases (x : Name) (hx : x ≠ []) :
+    (allUnderscore x = true ∧ lstripU x = [] ∧ x ≠ lstripU x ∧ (∀ cfg, suspect cfg x = false)) ∨
+    (allUnderscore x = false ∧ lstripU x ≠ [] ∧ x ≠ lstripU x ∧ (∀ cfg, suspect cfg x = false)) ∨
+    (allUnderscore x = false ∧ x = lstripU x) := by
+  cases x with
+  | nil => exact absurd rfl hx
+  | cons c r =>
+    by_cases hc : c = '_'
+    · subst hc
+      have hne : ('_' :: r) ≠ lstripU ('_' :: r) := by
+        rw [lstripU_underscore]
+        intro e
+        have hm : ('_' : Char) ∈ lstripU r := by rw [← e]; simp
+        rcases lstripU_shape r with h | ⟨d, r', h, hd⟩
+        · rw [h] at hm; simp at hm
+        · have e' := e; rw [h] at e'; injection e' with e1 _; exact hd e1.symm
+      by_cases hl : lstripU r = []
+      · left
+        refine ⟨?_, by rw [lstripU_underscore]; exact hl, hne, fun cfg => suspect_lead_underscore cfg r⟩
+        apply (allUnderscore_iff _).mpr
+        refine ⟨by simp, ?_⟩
+        intro x hx'
+        rcases List.mem_cons.mp hx' with rfl | hx'
+        · rfl
+        · exact (lstripU_eq_nil_iff r).mp hl x hx'
+      · right; left
+        refine ⟨?_, by rw [lstripU_underscore]; exact hl, hne, fun cfg => suspect_lead_underscore cfg r⟩
+        cases hu : allUnderscore ('_' :: r)
+        · rfl
+        · exfalso; apply hl
+          apply (lstripU_eq_nil_iff r).mpr
+          intro x hx'; exact ((allUnderscore_iff _).mp hu).2 x (by simp [hx'])
+    · right; right
+      exact ⟨allUnderscore_cons_false r hc, (lstripU_of_ne r hc).symm⟩
+
+theorem processName_trim (cfg : Cfg) (hs : cfg.snake = false) (ht : cfg.trim = true) (x : Name) (hx : x ≠ []) :
+    processName cfg x =
+      if allUnderscore x = true then fallbackName else if x = lstripU x then suffix cfg x else lstripU x := by
+  cases x with
+  | nil => exact absurd rfl hx
+  | cons c r =>
+    by_cases hc : c = '_'
+    · subst hc
+      rw [processName_trim_lead cfg r hs ht]
+      rcases kind_cases ('_' :: r) (by simp) with ⟨h1, h2, h3, _⟩ | ⟨h1, h2, h3, _⟩ | ⟨_, h2⟩
+      · rw [lstripU_underscore] at h2; simp [h1, h2]
+      · have h2' := h2; rw [lstripU_underscore] at h2'
+        simp only [h1, h2', if_false, Bool.false_eq_true]
+        rw [if_neg h3, lstripU_underscore]
+      · exfalso
+        rw [lstripU_underscore] at h2
+        have hm : ('_' : Char) ∈ lstripU r := by rw [← h2]; simp
+        rcases lstripU_shape r with h | ⟨d, r', h, hd⟩
+        · rw [h] at hm; simp at hm
+        · have e' := h2; rw [h] at e'; injection e' with e1 _; exact hd e1.symm
+    · rw [processName_trim_nolead cfg c r hs hc]
+      simp [allUnderscore_cons_false r hc, lstripU_of_ne r hc]
+
+theorem suffix_eq_fallback_iff (cfg : Cfg) (b : Name) : suffix cfg b = fallbackName ↔ b = fallbackName := by
+  constructor
+  · intro h
+    rcases suffix_cases cfg b with ⟨_, e⟩ | ⟨hsb, e⟩
+    · rw [e] at h; exact h
+    · rw [e] at h; rw [suspect_fallback_stem cfg b h] at hsb; exact absurd hsb (by simp)
+  · intro h; rw [h]; exact suffix_of_not_suspect cfg (suspect_fallback cfg)
+
+/-- the right-hand side of the characterisation under (snake off, trim on), as a proposition -/
+def TrimRHS (cfg : Cfg) (a b : Name) : Prop :=
+  a = b ∨
+  (lstripU a = lstripU b ∧ ((a ≠ lstripU a ∧ b ≠ lstripU b) ∨ suspect cfg (lstripU a) = false)) ∨
+  ((suspect cfg b = true ∧ lstripU a = b ++ ['_']) ∨ (suspect cfg a = true ∧ lstripU b = a ++ ['_'])) ∨
+  ((allUnderscore a = true ∧ allUnderscore b = false ∧ lstripU b = fallbackName) ∨
+   (allUnderscore b = true ∧ allUnderscore a = false ∧ lstripU a = fallbackName))
+
+theorem TrimRHS_symm (cfg : Cfg) (a b : Name) : TrimRHS cfg a b → TrimRHS cfg b a := by
+  rintro (h | ⟨h1, h2⟩ | (h | h) | (h | h))
+  · exact Or.inl h.symm
+  · refine Or.inr (Or.inl ⟨h1.symm, ?_⟩)
+    rcases h2 with ⟨x, y⟩ | x
+    · exact Or.inl ⟨y, x⟩
+    · exact Or.inr (by rw [← h1]; exact x)
+  · exact Or.inr (Or.inr (Or.inl (Or.inr h)))
+  · exact Or.inr (Or.inr (Or.inl (Or.inl h)))
+  · exact Or.inr (Or.inr (Or.inr (Or.inr h)))
+  · exact Or.inr (Or.inr (Or.inr (Or.inl h)))
+
+theorem collide_trim_aux (cfg : Cfg) (hs : cfg.snake = false) (ht : cfg.trim = true) (a b : Name)
+    (ha : a ≠ []) (hb : b ≠ [])
+    (horder : allUnderscore a = true ∨ (a ≠ lstripU a ∧ allUnderscore b = false) ∨ (a = lstripU a ∧ b = lstripU b)) :
+    processName cfg a = processName cfg b ↔ TrimRHS cfg a b := by
+  rw [processName_trim cfg hs ht a ha, processName_trim cfg hs ht b hb]
+  rcases kind_cases a ha with ⟨a1, a2, a3, a4⟩ | ⟨a1, a2, a3, a4⟩ | ⟨a1, a2⟩ <;>
+    rcases kind_cases b hb with ⟨b1, b2, b3, b4⟩ | ⟨b1, b2, b3, b4⟩ | ⟨b1, b2⟩
+  · -- K1 K1
+    simp only [a1, b1, if_true, true_iff]
+    exact Or.inr (Or.inl ⟨by rw [a2, b2], Or.inl ⟨a3, b3⟩⟩)
+  · -- K1 K2
+    simp only [a1, b1, if_true, if_false, Bool.false_eq_true, if_neg b3]
+    constructor
+    · intro h; exact Or.inr (Or.inr (Or.inr (Or.inl ⟨a1, b1, h.symm⟩)))
+    · rintro (h | ⟨h1, _⟩ | (⟨h, _⟩ | ⟨h, _⟩) | (⟨_, _, h⟩ | ⟨h, _⟩))
+      · subst h; rw [a1] at b1; exact absurd b1 (by simp)
+      · rw [a2] at h1; exact absurd h1.symm b2
+      · rw [b4 cfg] at h; exact absurd h (by simp)
+      · rw [a4 cfg] at h; exact absurd h (by simp)
+      · exact h.symm
+      · rw [b1] at h; exact absurd h (by simp)
+  · -- K1 K3
+    simp only [a1, b1, if_true, if_false, Bool.false_eq_true, if_pos b2]
+    constructor
+    · intro h
+      have := (suffix_eq_fallback_iff cfg b).mp h.symm
+      exact Or.inr (Or.inr (Or.inr (Or.inl ⟨a1, b1, by rw [← b2]; exact this⟩)))
+    · rintro (h | ⟨h1, _⟩ | (⟨_, h⟩ | ⟨h, _⟩) | (⟨_, _, h⟩ | ⟨h, _⟩))
+      · subst h; rw [a1] at b1; exact absurd b1 (by simp)
+      · rw [a2, ← b2] at h1; exact absurd h1.symm hb
+      · rw [a2] at h; exact absurd h (by simp)
+      · rw [a4 cfg] at h; exact absurd h (by simp)
+      · rw [← b2] at h; exact ((suffix_eq_fallback_iff cfg b).mpr h).symm
+      · rw [b1] at h; exact absurd h (by simp)
+  · -- K2 K1 (excluded by the ordering hypothesis)
+    rcases horder with h | ⟨_, h⟩ | ⟨h, _⟩
+    · rw [a1] at h; exact absurd h (by simp)
+    · rw [b1] at h; exact absurd h (by simp)
+    · exact absurd h a3
+  · -- K2 K2
+    simp only [a1, b1, if_false, Bool.false_eq_true, if_neg a3, if_neg b3]
+    constructor
+    · intro h; exact Or.inr (Or.inl ⟨h, Or.inl ⟨a3, b3⟩⟩)
+    · rintro (h | ⟨h1, _⟩ | (⟨h, _⟩ | ⟨h, _⟩) | (⟨h, _⟩ | ⟨h, _⟩))
+      · rw [h]
+      · exact h1
+      · rw [b4 cfg] at h; exact absurd h (by simp)
+      · rw [a4 cfg] at h; exact absurd h (by simp)
+      · rw [a1] at h; exact absurd h (by simp)
+      · rw [b1] at h; exact absurd h (by simp)
+  · -- K2 K3
+    simp only [a1, b1, if_false, Bool.false_eq_true, if_neg a3, if_pos b2]
+    constructor
+    · intro h
+      rcases suffix_cases cfg b with ⟨hsb, e⟩ | ⟨hsb, e⟩
+      · rw [e] at h
+        refine Or.inr (Or.inl ⟨by rw [← b2]; exact h, Or.inr (by rw [h]; exact hsb)⟩)
+      · rw [e] at h
+        exact Or.inr (Or.inr (Or.inl (Or.inl ⟨hsb, h⟩)))
+    · rintro (h | ⟨h1, h2⟩ | (⟨h, e⟩ | ⟨h, _⟩) | (⟨h, _⟩ | ⟨h, _⟩))
+      · subst h; exact absurd b2 a3
+      · rw [← b2] at h1
+        rcases h2 with ⟨_, h2⟩ | h2
+        · exact absurd b2 h2
+        · rw [h1] at h2; rw [suffix_of_not_suspect cfg h2]; exact h1
+      · rw [suffix_of_suspect cfg h]; exact e
+      · rw [a4 cfg] at h; exact absurd h (by simp)
+      · rw [a1] at h; exact absurd h (by simp)
+      · rw [b1] at h; exact absurd h (by simp)
+  · -- K3 K1 (excluded)
+    rcases horder with h | ⟨h, _⟩ | ⟨_, h⟩
+    · rw [a1] at h; exact absurd h (by simp)
+    · exact absurd a2 h
+    · exact absurd h b3
+  · -- K3 K2 (excluded)
+    rcases horder with h | ⟨h, _⟩ | ⟨_, h⟩
+    · rw [a1] at h; exact absurd h (by simp)
+    · exact absurd a2 h
+    · exact absurd h b3
+  · -- K3 K3
+    simp only [a1, b1, if_false, Bool.false_eq_true, if_pos a2, if_pos b2]
+    constructor
+    · intro h
+      rcases suffix_eq_cases cfg a b h with e | ⟨h1, e⟩ | ⟨h1, e⟩
+      · exact Or.inl e
+      · exact Or.inr (Or.inr (Or.inl (Or.inl ⟨h1, by rw [← a2]; exact e⟩)))
+      · exact Or.inr (Or.inr (Or.inl (Or.inr ⟨h1, by rw [← b2]; exact e⟩)))
+    · rintro (h | ⟨h1, _⟩ | (⟨h, e⟩ | ⟨h, e⟩) | (⟨h, _⟩ | ⟨h, _⟩))
+      · rw [h]
+      · rw [← a2, ← b2] at h1; rw [h1]
+      · rw [← a2] at e
+        rw [e, suffix_of_suspect cfg h, suffix_of_not_suspect cfg (suspect_append_underscore cfg b h)]
+      · rw [← b2] at e
+        rw [e, suffix_of_suspect cfg h, suffix_of_not_suspect cfg (suspect_append_underscore cfg a h)]
+      · rw [a1] at h; exact absurd h (by simp)
+      · rw [b1] at h; exact absurd h (by simp)
+
+/-- snake-casing off, trimming on: the complete characterisation -/
+theorem collide_trim (cfg : Cfg) (hs : cfg.snake = false) (ht : cfg.trim = true) (a b : Name)
+    (ha : a ≠ []) (hb : b ≠ []) :
+    processName cfg a = processName cfg b ↔ TrimRHS cfg a b := by
+  by_cases h : allUnderscore a = true ∨ (a ≠ lstripU a ∧ allUnderscore b = false) ∨ (a = lstripU a ∧ b = lstripU b)
+  · exact collide_trim_aux cfg hs ht a b ha hb h
+  · -- then the mirrored pair is ordered
+    have h' : allUnderscore b = true ∨ (b ≠ lstripU b ∧ allUnderscore a = false) ∨ (b = lstripU b ∧ a = lstripU a) := by
+      rcases kind_cases a ha with ⟨a1, _⟩ | ⟨a1, a2, a3, _⟩ | ⟨a1, a2⟩
+      · exact absurd (Or.inl a1) h
+      · cases hub : allUnderscore b
+        · exact absurd (Or.inr (Or.inl ⟨a3, hub⟩)) h
+        · exact Or.inl rfl
+      · rcases kind_cases b hb with ⟨b1, _⟩ | ⟨b1, b2, b3, _⟩ | ⟨b1, b2⟩
+        · exact Or.inl b1
+        · exact Or.inr (Or.inl ⟨b3, a1⟩)
+        · exact absurd (Or.inr (Or.inr ⟨a2, b2⟩)) h
+    have := collide_trim_aux cfg hs ht b a hb ha h'
+    constructor
+    · intro e; exact TrimRHS_symm cfg b a (this.mp e.symm)
+    · intro e; exact (this.mpr (TrimRHS_symm cfg a b e)).symm
+
+
+/-! ## Part 7: scopes -/
+
+theorem typename_tables :
+    typenameAlias ∉ kwlistC ++ reservedC ∧ (∀ k ∈ kwlistC ++ reservedC, k ++ ['_'] ≠ typenameAlias) ∧
+    typenameAlias ≠ fallbackName ∧ PyIdent typenameAlias ∧ GName typenameField ∧
+    typenameAlias.dropLast.dropLast ++ ['_', '_'] = typenameAlias ∧ typenameAlias.head? ≠ some '_' ∧
+    typenameAlias ≠ [] ∧ lstripU typenameField ≠ typenameAlias := by decide +kernel
+
+theorem suspect_typenameAlias (cfg : Cfg) : suspect cfg typenameAlias = false := by
+  cases hs : suspect cfg typenameAlias
+  · rfl
+  · exfalso; apply typename_tables.1
+    rcases (suspect_iff cfg _).mp hs with h | ⟨_, h⟩ <;> simp [h]
+
+theorem suffix_eq_typenameAlias_iff (cfg : Cfg) (x : Name) : suffix cfg x = typenameAlias ↔ x = typenameAlias := by
+  constructor
+  · intro h
+    rcases suffix_cases cfg x with ⟨_, e⟩ | ⟨hsx, e⟩
+    · rw [e] at h; exact h
+    · rw [e] at h
+      exfalso
+      refine typename_tables.2.1 x ?_ h
+      rcases (suspect_iff cfg _).mp hsx with h | ⟨_, h⟩ <;> simp [h]
+  · intro h; rw [h]; exact suffix_of_not_suspect cfg (suspect_typenameAlias cfg)
+
+/-- with snake-casing on nothing is mapped to `typename__` (snake-cased names do not end in `_`) -/
+theorem processName_snake_ne_typenameAlias (cfg : Cfg) (hs : cfg.snake = true) (x : Name) :
+    processName cfg x ≠ typenameAlias := by
+  have hform := typename_tables.2.2.2.2.2.1
+  cases hu : allUnderscore x
+  · rw [processName_snake cfg x hs hu]
+    intro h
+    rcases suffix_cases cfg (snake x) with ⟨_, e⟩ | ⟨_, e⟩
+    · rw [e, ← hform] at h
+      exact snake_not_trailing x (typenameAlias.dropLast.dropLast ++ ['_']) (by rw [h]; simp)
+    · rw [e, ← hform] at h
+      have : snake x = typenameAlias.dropLast.dropLast ++ ['_'] := by
+        have h' : snake x ++ ['_'] = (typenameAlias.dropLast.dropLast ++ ['_']) ++ ['_'] := by rw [h]; simp
+        exact List.append_cancel_right h'
+      exact snake_not_trailing x _ this
+  · rw [processName_snake_allU cfg x hs hu]
+    exact fun h => typename_tables.2.2.1 h.symm
+
+/-- with snake-casing off and trimming on, exactly the names that strip to `typename__` are mapped to it -/
+theorem processName_trim_eq_typenameAlias_iff (cfg : Cfg) (hs : cfg.snake = false) (ht : cfg.trim = true)
+    (x : Name) (hx : x ≠ []) : processName cfg x = typenameAlias ↔ lstripU x = typenameAlias := by
+  rw [processName_trim cfg hs ht x hx]
+  rcases kind_cases x hx with ⟨a1, a2, a3, _⟩ | ⟨a1, a2, a3, _⟩ | ⟨a1, a2⟩
+  · simp only [a1, if_true, a2]
+    constructor
+    · intro h; exact absurd h.symm typename_tables.2.2.1
+    · intro h; exact absurd h.symm typename_tables.2.2.2.2.2.2.2.1
+  · simp only [a1, if_false, Bool.false_eq_true, if_neg a3]
+  · simp only [a1, if_false, Bool.false_eq_true, if_pos a2]
+    rw [suffix_eq_typenameAlias_iff, ← a2]
+
+theorem suffixKw_eq_processName (n : Name) (hn : n ≠ []) : suffixKw n = processName ⟨false, false, false⟩ n := by
+  rw [processName_plain ⟨false, false, false⟩ n rfl rfl hn]
+  simp [suffix, suffixRes]
+
+theorem pyName_eq (sn : Bool) (s : Scope) (n : Name) (hn : n ≠ []) (h : ¬ (s = .resultField ∧ n = typenameField)) :
+    pyName sn s n = processName (scopeCfg sn s) n := by
+  cases s
+  · have : n ≠ typenameField := fun e => h ⟨rfl, e⟩
+    simp [pyName, scopeCfg, this]
+  · rfl
+  · rfl
+  · rfl
+  · exact suffixKw_eq_processName n hn
+
+theorem pyName_typename (sn : Bool) : pyName sn .resultField typenameField = typenameAlias := by
+  simp [pyName]
+
+theorem nodup_map_of_inj {α β : Type} (f : α → β) (l : List α) (hl : l.Nodup)
+    (h : ∀ a ∈ l, ∀ b ∈ l, f a = f b → a = b) : (l.map f).Nodup := by
+  unfold List.Nodup at *
+  rw [List.pairwise_map]
+  exact hl.imp_of_mem (fun ha hb hne e => hne (h _ ha _ hb e))
+
+theorem inj_of_nodup_map {α β : Type} (f : α → β) (l : List α) (h : (l.map f).Nodup) :
+    ∀ a ∈ l, ∀ b ∈ l, f a = f b → a = b := by
+  induction l with
+  | nil => intro a ha; simp at ha
+  | cons x xs ih =>
+    simp only [List.map_cons, List.nodup_cons, List.mem_map, not_exists, not_and] at h
+    intro a ha b hb e
+    rcases List.mem_cons.mp ha with ea | ha' <;> rcases List.mem_cons.mp hb with eb | hb'
+    · rw [ea, eb]
+    · rw [ea] at e; exact absurd e.symm (h.1 b hb')
+    · rw [eb] at e; exact absurd e (h.1 a ha')
+    · exact ih h.2 a ha' b hb' e
+
 end Ariadne.Names
